@@ -113,6 +113,8 @@ def replay_case(case):
 def eval_block(block, acc):
     if block[0] == "bytes":
         it = ((d, None) for d in streams.iter_block(tuple(block[1]) if block[1][0] == "short" else ("pre", block[1][1], block[1][2])))
+    elif block[0] == "long":
+        it = ((streams.seq_bytes(s), s) for s in streams.long_seqs(streams.LONG_NEIGHBOURS))
     else:
         _, first, k, alpha = block
         alphabet = CLEAN_ALPHABET if alpha == "clean" else ALPHABET
@@ -138,6 +140,7 @@ def run_tier(tier, t0):
     blocks = [("bytes", list(b)) for b in streams.byte_blocks(L)]
     blocks += [("tokens", None, 0, "clean")] + [("tokens", f, k, "clean") for f in CLEAN_ALPHABET]
     blocks += [("tokens", f, kf, "all") for f in ALPHABET]
+    blocks.append(("long",))
     acc = engine.sweep(blocks, eval_block)
     engine.finish(
         PROP, tier, acc, t0, replay_case,
